@@ -29,6 +29,44 @@ from ..model import AnalysisError
 HPC = "yadism.coefficient_functions.heavy.partonic_channel"
 
 
+def _poly_sign(p):
+    """+1 / -1 if every coefficient has that sign and every atom is a positive quantity, else None."""
+    signs = set()
+    for m, (c, _g) in p.t.items():
+        if not all(A._atom_positive(a) for a, _ in m):
+            return None
+        signs.add(1 if c > 0 else -1)
+    return signs.pop() if len(signs) == 1 else None
+
+
+def _den_sign(r):
+    sg = 1
+    for f, pw in r.d.values():
+        fs = _poly_sign(f)
+        if fs is None:
+            return None
+        if pw % 2:
+            sg *= fs
+    return sg
+
+
+def _proportional_sign(d, s):
+    """Sign of g if d == g * s with g of definite sign for positive symbols (g = constant x monomial / sign-definite denominators), else None."""
+    d, s = A.to_rat(d), A.to_rat(s)
+    sd, ss = _den_sign(d), _den_sign(s)
+    if sd is None or ss is None or s.n.is_zero() or d.n.is_zero():
+        return None
+    (ms, (cs, _)), = list(s.n.t.items())[:1]
+    for md, (cd, _g) in d.n.t.items():
+        if not all(A._atom_positive(a) for a, _ in md + ms):
+            continue
+        lhs = A.Rat(d.n) * A.Rat(A.Poly({ms: (Fraction(1), Fraction(1))}))
+        rhs = A.Rat(s.n) * A.Rat(A.Poly({md: (cd / cs, abs(cd / cs))}))
+        if A.equal(lhs, rhs, tol=Fraction(0)):
+            return (1 if cd / cs > 0 else -1) * sd * ss
+    return None
+
+
 def check_cmp(rep, proj):
     base = proj.cls(HPC, "NeutralCurrentBase")
     f = base.find_method("is_below_pair_threshold")
@@ -58,14 +96,16 @@ def check_cmp(rep, proj):
 
     def make_compare(sign):  # sign of shat - thr: -1 below, 0 at, +1 above
         def on_compare(op, a, b, node):
+            # a - b must be (shat - thr) times a factor of definite sign (e.g. z - zmax = -(shat - thr) z / (Q2 + 4 m^2))
             d = A.to_rat(a) - A.to_rat(b)
-            if A.equal(d, shat - thr, tol=Fraction(0)):
-                sgn = sign
-            elif A.equal(d, thr - shat, tol=Fraction(0)):
-                sgn = -sign
-            else:
+            try:
+                g = _proportional_sign(d, shat - thr)
+            except (A.Undecided, ZeroDivisionError):
+                g = None
+            if g is None:
                 foreign.append((type(op).__name__, A.canon(a)[:40], A.canon(b)[:40]))
                 return None
+            sgn = sign * g
             return {"Lt": sgn < 0, "LtE": sgn <= 0, "Gt": sgn > 0, "GtE": sgn >= 0, "Eq": sgn == 0, "NotEq": sgn != 0}.get(type(op).__name__)
 
         return on_compare
@@ -298,6 +338,7 @@ def _mass_job(kw):
     log = getattr(op.ev, "kernel_log", [])
     bad = []
     n = 0
+    unattributed = {}
     for partons, coeff in log:
         if not isinstance(coeff, S.ObjVal) or coeff.cinfo is None or not isinstance(partons, dict):
             continue
@@ -320,11 +361,26 @@ def _mass_job(kw):
                         elif int(m.group(1)) >= 4 and int(m.group(1)) > kw["nfff"]:
                             quarks.add(int(m.group(1)))
         if len(quarks) != 1:
-            continue  # e.g. the 'missing' non-singlet kernels carry light-quark weights only
+            # the 'missing' kernels (light-quark initiated, heavy quark radiated) carry light-quark weights only: attributed as a group below
+            if len(masses) == 1:
+                unattributed.setdefault(coeff.cinfo.fq, []).append(next(iter(masses)))
+            continue
         n += 1
         q = next(iter(quarks))
         if masses != {MASS[q]}:
             bad.append(f"{coeff.cinfo.fq} built for the {MASS[q][1]} quark (weights {sorted(str(k) for k in partons)[:3]}...) carries the mass symbol(s) {sorted(masses)}")
+    # light-quark initiated kernels: one per quark that is massive in the scheme and heavier than the active ones, each with that quark's mass
+    try:
+        zmq = list(op.runner.attrs["configs"].attrs["theory"]["ZMq"])
+        nf_act = op.cell.nf if op.cell.fns == "ZM-VFNS" else op.cell.nfff
+        expected = sorted(MASS[4 + i] for i, zm in enumerate(zmq) if not zm and 4 + i > nf_act)
+    except (KeyError, AttributeError, TypeError):
+        expected = None
+    if expected is not None:
+        for fq, ms in sorted(unattributed.items()):
+            n += 1
+            if sorted(ms) != expected:
+                bad.append(f"the light-quark initiated kernels {fq} carry the masses {sorted(ms)}; the quarks massive in this scheme are {expected} (one kernel each)")
     return ("ok", sorted(set(bad))[:3], len(set(bad)), n)
 
 
